@@ -91,6 +91,11 @@ CHECKS = {
    text="Cache.tla enumerates target subsets x root chain x trusted root version x one corrupted source target and states which calls must succeed and which root files must exist; each case runs Repository::cache on a repository with odd role and target names, lists the directory tree (confinement), loads the copy with a client holding the same root (HTTP-like and file://), compares versions, reads back every requested target and checks that a corrupted target is never stored.",
    note="Oracle-style model; library path only (tuftool clone not exercised). F14 is a recorded finding.",
    technique="TLA+ model as oracle (TLC) + replay through Repository::cache with directory and copy inspection"),
+
+ "C20": dict(cat="model_checking", design="5 C20",
+   text="RootCli.tla models every `tuftool root` subcommand on the abstract file (version, key table, per-role key ids and thresholds, signatures) with the success condition the code implements, including --cross-sign and --ignore-threshold; TLC checks PlainSignSelfVerifies and EditsClearSigs over all sequences of up to 6-7 commands. Replayed through the tuftool binary built from the working tree: all (a share of the) 2-command sequences, simulated 6-12-command sequences, and the witness sequences TLC produces for the signature-counting variant of sign; after every invocation the harness parses the file itself, recomputes key identifiers, verifies signatures with its own verifier, and checks that a failing command left the file untouched.",
+   note="Trusted: TLC; keys: one RSA, one Ed25519, one ECDSA; the other root used for --cross-sign is fixed (root key 1). Process creation limits the number of replayed sequences (about 35 invocations/s).",
+   technique="TLA+ model of the CLI (TLC exhaustive with hidden history) + replay of generated command sequences through the real binary with independent inspection of root.json"),
 }
 NA_REASON = "check not built yet in this round (planned, see DESIGN.md section 5); not claimed"
 
